@@ -51,15 +51,16 @@ def read(line):
     return Cmd(line, code, m.group(3), words, s[pos:].strip())
 
 
-def well_formed(line):
-    """C07: one code, distinct letters, every word has a plain-decimal finite number, nothing left over."""
+def well_formed(line, flags=()):
+    """C07: one code, distinct letters, every word has a plain-decimal finite number, nothing left over.
+    `flags`: letters whose intended reading is "given without a value" (a flag of the original command carried over)."""
     c = read(line)
     if c is None or c.rest:
         return False, 'unreadable remainder %r' % (c.rest if c else line)
     letters = [k for k, _ in c.words]
     if len(set(letters)) != len(letters):
         return False, 'repeated parameter letter in %r' % line
-    if any(v is None for _, v in c.words):
+    if any(v is None and k not in flags for k, v in c.words):
         return False, 'parameter without number in %r' % line
     if re.search(r'[0-9.][eE][-+0-9]', line.split(None, 1)[1] if ' ' in line else ''):
         return False, 'exponent notation in %r' % line
